@@ -29,6 +29,9 @@ pub fn same_value(x: Value, y: Value) -> bool {
         (Value::Null, Value::Null) => true,
         (Value::List(a), Value::List(b)) => a.index() == b.index(),
         (Value::String(a), Value::String(b)) => a.index() == b.index(),
+        (Value::Lambda(a), Value::Lambda(b)) => a.index() == b.index(),
+        (Value::Record(a), Value::Record(b)) => a.index() == b.index(),
+        (Value::BuiltIn(a), Value::BuiltIn(b)) => a == b,
         _ => false,
     }
 }
@@ -111,11 +114,36 @@ pub fn stub_anyhow_format_err_cut(_a: std::fmt::Arguments<'_>) -> anyhow::Error 
 /// handed to free(); blots-core is safe Rust and never frees manually, so nothing is lost.
 pub unsafe fn stub_dealloc(_ptr: *mut u8, _layout: std::alloc::Layout) {}
 pub unsafe fn stub_dealloc_nonnull(_ptr: std::ptr::NonNull<u8>, _layout: std::alloc::Layout) {}
+/// realloc = allocate + copy, never free (the old block may be a typed static)
+pub unsafe fn stub_realloc(ptr: *mut u8, layout: std::alloc::Layout, new_size: usize) -> *mut u8 {
+    unsafe {
+        let new = std::alloc::alloc(std::alloc::Layout::from_size_align_unchecked(new_size, layout.align()));
+        let n = if layout.size() < new_size { layout.size() } else { new_size };
+        if n > 0 {
+            std::ptr::copy_nonoverlapping(ptr, new, n);
+        }
+        new
+    }
+}
+pub unsafe fn stub_realloc_nonnull(ptr: std::ptr::NonNull<u8>, layout: std::alloc::Layout, new_size: usize) -> *mut u8 {
+    unsafe { stub_realloc(ptr.as_ptr(), layout, new_size) }
+}
 
 /// `std::time::Instant::now` (clock_gettime FFI): an arbitrary instant. The evaluator only
 /// stores it in the call-statistics log.
 pub fn stub_instant_now() -> std::time::Instant {
     unsafe { std::mem::transmute((0u64, 0u32, 0u32)) }
+}
+
+/// `Value::stringify` (the worker behind stringify_internal / _external / _for_display: float ->
+/// text, lambda -> source text) produces an empty string: text is never the subject of a harness
+/// that uses this stub (error messages, to_string / format results are unconstrained).
+pub fn stub_stringify(_v: &Value, _heap: &Heap, _wrap_strings: bool, _display_format: bool) -> String {
+    String::new()
+}
+/// `units::convert` cut with a safety net (unit conversion is decided by engine E2, C17)
+pub fn stub_units_convert(_value: f64, _from: &str, _to: &str) -> anyhow::Result<f64> {
+    panic!("verif-cut: units::convert reached")
 }
 
 /// `FunctionDef::call` cut with a safety net, for harness families whose ASTs contain no call,
@@ -145,8 +173,12 @@ macro_rules! kproof {
         #[kani::stub(std::hash::RandomState::new, crate::util::stub_random_state_new)]
         #[kani::stub(alloc::alloc::dealloc, crate::util::stub_dealloc)]
         #[kani::stub(alloc::alloc::dealloc_nonnull, crate::util::stub_dealloc_nonnull)]
+        #[kani::stub(alloc::alloc::realloc, crate::util::stub_realloc)]
+        #[kani::stub(alloc::alloc::realloc_nonnull, crate::util::stub_realloc_nonnull)]
         #[kani::stub(std::backtrace::Backtrace::capture, crate::util::stub_backtrace_capture)]
         #[kani::stub(alloc::fmt::format, crate::util::stub_format)]
+        #[kani::stub(blots_core::values::Value::stringify, crate::util::stub_stringify)]
+        #[kani::stub(blots_core::units::convert, crate::util::stub_units_convert)]
         #[kani::stub(::anyhow::Error::msg, crate::util::stub_anyhow_msg_panic)]
         #[kani::stub(::anyhow::__private::format_err, crate::util::stub_anyhow_format_err_panic)]
         pub fn $name() $body
@@ -158,8 +190,12 @@ macro_rules! kproof {
         #[kani::stub(std::hash::RandomState::new, crate::util::stub_random_state_new)]
         #[kani::stub(alloc::alloc::dealloc, crate::util::stub_dealloc)]
         #[kani::stub(alloc::alloc::dealloc_nonnull, crate::util::stub_dealloc_nonnull)]
+        #[kani::stub(alloc::alloc::realloc, crate::util::stub_realloc)]
+        #[kani::stub(alloc::alloc::realloc_nonnull, crate::util::stub_realloc_nonnull)]
         #[kani::stub(std::backtrace::Backtrace::capture, crate::util::stub_backtrace_capture)]
         #[kani::stub(alloc::fmt::format, crate::util::stub_format)]
+        #[kani::stub(blots_core::values::Value::stringify, crate::util::stub_stringify)]
+        #[kani::stub(blots_core::units::convert, crate::util::stub_units_convert)]
         #[kani::stub(::anyhow::Error::msg, crate::util::stub_anyhow_msg_cut)]
         #[kani::stub(::anyhow::__private::format_err, crate::util::stub_anyhow_format_err_cut)]
         pub fn $name() $body
@@ -171,8 +207,12 @@ macro_rules! kproof {
         #[kani::stub(std::hash::RandomState::new, crate::util::stub_random_state_new)]
         #[kani::stub(alloc::alloc::dealloc, crate::util::stub_dealloc)]
         #[kani::stub(alloc::alloc::dealloc_nonnull, crate::util::stub_dealloc_nonnull)]
+        #[kani::stub(alloc::alloc::realloc, crate::util::stub_realloc)]
+        #[kani::stub(alloc::alloc::realloc_nonnull, crate::util::stub_realloc_nonnull)]
         #[kani::stub(std::backtrace::Backtrace::capture, crate::util::stub_backtrace_capture)]
         #[kani::stub(alloc::fmt::format, crate::util::stub_format)]
+        #[kani::stub(blots_core::values::Value::stringify, crate::util::stub_stringify)]
+        #[kani::stub(blots_core::units::convert, crate::util::stub_units_convert)]
         #[kani::stub(::anyhow::Error::msg, crate::util::stub_anyhow_msg_panic)]
         #[kani::stub(::anyhow::__private::format_err, crate::util::stub_anyhow_format_err_panic)]
         #[kani::stub(blots_core::functions::FunctionDef::call, crate::util::stub_function_def_call)]
@@ -185,8 +225,12 @@ macro_rules! kproof {
         #[kani::stub(std::hash::RandomState::new, crate::util::stub_random_state_new)]
         #[kani::stub(alloc::alloc::dealloc, crate::util::stub_dealloc)]
         #[kani::stub(alloc::alloc::dealloc_nonnull, crate::util::stub_dealloc_nonnull)]
+        #[kani::stub(alloc::alloc::realloc, crate::util::stub_realloc)]
+        #[kani::stub(alloc::alloc::realloc_nonnull, crate::util::stub_realloc_nonnull)]
         #[kani::stub(std::backtrace::Backtrace::capture, crate::util::stub_backtrace_capture)]
         #[kani::stub(alloc::fmt::format, crate::util::stub_format)]
+        #[kani::stub(blots_core::values::Value::stringify, crate::util::stub_stringify)]
+        #[kani::stub(blots_core::units::convert, crate::util::stub_units_convert)]
         #[kani::stub(::anyhow::Error::msg, crate::util::stub_anyhow_msg_cut)]
         #[kani::stub(::anyhow::__private::format_err, crate::util::stub_anyhow_format_err_cut)]
         #[kani::stub(blots_core::functions::FunctionDef::call, crate::util::stub_function_def_call)]
@@ -199,6 +243,8 @@ macro_rules! kproof {
         #[kani::stub(std::hash::RandomState::new, crate::util::stub_random_state_new)]
         #[kani::stub(alloc::alloc::dealloc, crate::util::stub_dealloc)]
         #[kani::stub(alloc::alloc::dealloc_nonnull, crate::util::stub_dealloc_nonnull)]
+        #[kani::stub(alloc::alloc::realloc, crate::util::stub_realloc)]
+        #[kani::stub(alloc::alloc::realloc_nonnull, crate::util::stub_realloc_nonnull)]
         #[kani::stub(std::backtrace::Backtrace::capture, crate::util::stub_backtrace_capture)]
         pub fn $name() $body
     };
@@ -224,8 +270,8 @@ pub mod arena {
     use std::cell::Cell;
 
     const DSPAN: Span = Span { start_byte: 0, end_byte: 0, start_line: 1, start_col: 1 };
-    pub const N_NODES: usize = 24;
-    pub const N_CNODES: usize = 16;
+    pub const N_NODES: usize = 40;
+    pub const N_CNODES: usize = 40;
     pub const N_CELLS: usize = 12;
     static mut NODES: [SpannedExpr; N_NODES] = [const { Spanned { node: Expr::Null, span: DSPAN } }; N_NODES];
     static mut NODES_NEXT: usize = 0;
@@ -251,7 +297,10 @@ pub mod arena {
 
     fn check(ok: bool, _msg: &'static str) {
         #[cfg(kani)]
-        kani::assert(ok, "arena capacity exceeded (harness bug)");
+        {
+            kani::assert(ok, "arena capacity exceeded (harness bug)");
+            kani::assume(ok);
+        }
         #[cfg(not(kani))]
         assert!(ok, "{}", _msg);
     }
@@ -299,6 +348,7 @@ pub mod arena {
         }
         unsafe {
             let start = CNODES_NEXT;
+            check(start + 3 <= N_CNODES, "arena: out of list-element nodes");
             let base = (&raw mut CNODES as *mut Commented<SpannedExpr>).add(start);
             let mut n = 0;
             if let Some(e) = a {
@@ -338,6 +388,7 @@ pub mod arena {
         }
         unsafe {
             let start = NODES_NEXT;
+            check(start + 3 <= N_NODES, "arena: out of AST nodes");
             let base = (&raw mut NODES as *mut SpannedExpr).add(start);
             let mut n = 0;
             if let Some(e) = a {
@@ -364,31 +415,71 @@ pub mod arena {
         Expr::Call { func: bx(f), args }
     }
 
-    pub const N_VALS: usize = 48;
-    static mut VALS: [Value; N_VALS] = [Value::Null; N_VALS];
-    static mut VALS_NEXT: usize = 0;
-    /// argument vector / list buffer (Vec<Value>) over typed static storage: payloads that are heap
-    /// indices (lists, strings) stay constants for symbolic execution, which they do not in a
-    /// malloc'ed byte buffer (enum payloads are union members there)
+    /// argument vector / list buffer (Vec<Value>) on the ordinary heap, written **word by word**:
+    /// under `verif-hooks` `Value` is `#[repr(u64)]` (tag word, then the payload as a repr(C)
+    /// struct), so tag and payload can be stored as separate u64 constants.  A whole-`Value` store
+    /// into a malloc'ed byte buffer keeps the tag precise but turns payloads that are heap indices
+    /// (lists, strings) into non-constants for symbolic execution (they are union members).
+    /// `c00_q_value_word_layout` checks the layout assumption on every run.
     pub fn vals(items: [Option<Value>; 4]) -> Vec<Value> {
-        if native() {
+        let n = items[0].is_some() as usize + items[1].is_some() as usize + items[2].is_some() as usize + items[3].is_some() as usize;
+        if native() || n == 0 {
             return items.into_iter().flatten().collect();
         }
+        let mut v: Vec<Value> = Vec::with_capacity(n);
         unsafe {
-            let start = VALS_NEXT;
-            let base = (&raw mut VALS as *mut Value).add(start);
-            let mut n = 0;
-            let mut i = 0;
-            while i < 4 {
-                if let Some(v) = items[i] {
-                    std::ptr::write(base.add(n), v);
-                    n += 1;
-                }
-                i += 1;
+            let base = v.as_mut_ptr() as *mut u64;
+            let mut k = 0;
+            if let Some(x) = items[0] {
+                write_words(base.add(3 * k), x);
+                k += 1;
             }
-            check(start + n <= N_VALS, "arena: out of value slots");
-            VALS_NEXT = start + n;
-            Vec::from_raw_parts(base, n, n)
+            if let Some(x) = items[1] {
+                write_words(base.add(3 * k), x);
+                k += 1;
+            }
+            if let Some(x) = items[2] {
+                write_words(base.add(3 * k), x);
+                k += 1;
+            }
+            if let Some(x) = items[3] {
+                write_words(base.add(3 * k), x);
+                k += 1;
+            }
+            v.set_len(n);
+        }
+        v
+    }
+    /// store `x` as (tag, payload, payload2) words; falls back to a whole-value store for the
+    /// variants harnesses do not pass by index
+    pub unsafe fn write_words(p: *mut u64, x: Value) {
+        unsafe {
+            match x {
+                Value::Number(f) => {
+                    *p = 0;
+                    *p.add(1) = f.to_bits();
+                }
+                Value::Null => {
+                    *p = 2;
+                }
+                Value::List(l) => {
+                    *p = 3;
+                    *p.add(1) = l.index() as u64;
+                }
+                Value::String(l) => {
+                    *p = 4;
+                    *p.add(1) = l.index() as u64;
+                }
+                Value::Lambda(l) => {
+                    *p = 6;
+                    *p.add(1) = l.index() as u64;
+                }
+                Value::BuiltIn(b) => {
+                    *p = 8;
+                    *p.add(1) = b as u64;
+                }
+                other => std::ptr::write(p as *mut Value, other),
+            }
         }
     }
     pub fn vals0() -> Vec<Value> {
